@@ -285,8 +285,25 @@ pub fn run(args: &Args) {
     { let mut a = good.clone(); a[110 + 7] = b'x'; a.extend_from_slice(&trailer); archives.push(("unterminated name".into(), a)); }
     { archives.push(("no trailer".into(), good.clone())); archives.push(("empty archive".into(), vec![])); archives.push(("trailer only".into(), trailer.clone())); }
     for cut in [1usize, 6, 50, 109, 110, 115, 119, 120, 124] { archives.push((format!("archive cut at {cut}"), good[..cut.min(good.len())].to_vec())); }
+    { let mut a = good.clone(); a.extend_from_slice(&trailer); archives.push(("well-formed".into(), a)); }
+    // header file sizes: honest 32-bit ones; for some archives also 64-bit sizes the archive does not have
+    let lies: [u64; 8] = [u64::MAX, u64::MAX - 1, u64::MAX - 2, u64::MAX - 3, 1 << 63, (1 << 63) - 1, 1 << 40, (1 << 32) + 5];
     for (what, arch) in archives {
+        let lying = what == "well-formed" || what == "no trailer" || what.starts_with("stripped index 0000000") || what.starts_with("filesize=");
         for nfiles in [0usize, 1, 2] {
+            if lying && nfiles > 0 {
+                for v in lies {
+                    let names: Vec<&[u8]> = [b"a".as_slice(), b"b".as_slice()][..nfiles].to_vec();
+                    let h: Vec<(u32, u32, Value)> = vec![(1000, T_STRING, json!(["x".as_bytes()])), (1004, T_I18N, json!(["s".as_bytes()])),
+                          (1117, T_STRARR, Value::Array(names.iter().map(|x| json!(x)).collect())), (1118, T_STRARR, json!(["/opt/".as_bytes()])), (1116, T_INT32, json!(vec![0; nfiles])),
+                          (1030, T_INT16, json!(vec![0o100644; nfiles])), (5008, T_INT64, json!(vec![v; nfiles])),
+                          (1039, T_STRARR, json!(vec!["root".as_bytes(); nfiles])), (1040, T_STRARR, json!(vec!["root".as_bytes(); nfiles])),
+                          (1035, T_STRARR, json!(vec!["".as_bytes(); nfiles])), (1034, T_INT32, json!(vec![0u32; nfiles])), (1037, T_INT32, json!(vec![0u32; nfiles])),
+                          (1036, T_STRARR, json!(vec!["".as_bytes(); nfiles]))];
+                    let b = rawhdr::assemble(&lead_bytes("cpio"), &encode_wellformed(62, &[]), &encode_wellformed(63, &h), &arch, 0);
+                    cs.push(hexcase(&b, format!("cpio: {what}, {nfiles} header files claiming {v} bytes each")));
+                }
+            }
             let names: Vec<&[u8]> = [b"a".as_slice(), b"b".as_slice()][..nfiles].to_vec();
             let sv = |xs: Vec<&[u8]>| Value::Array(xs.iter().map(|x| json!(x)).collect());
             let mut h: Vec<(u32, u32, Value)> = vec![(1000, T_STRING, json!(["x".as_bytes()])), (1004, T_I18N, json!(["s".as_bytes()]))];
